@@ -1,4 +1,5 @@
 import Drivers.SpaceWire
+import Model.SpaceObject
 
 /-!
 Driver for C09 (space transforms).  One JSON request per line.
@@ -19,9 +20,49 @@ Ops
   "check"         "X", "T": [[rat…]…] tolerances, "Xt" (real transform), "Xr" (real round trip), "bounds": [[lo,hi]…]
                                            → shape, bounds, roundtrip  (checkShape / checkBounds / checkRoundTrip)
   "old_identity_typed" "col": [val…]       → what `Identity(type_func).inverse_transform` returned before the fix
+  "history"       "ops": [ {"o":"dim","j":n,"t":name} | {"o":"all","t":name} | {"o":"each","ts":[name…]}
+                         | {"o":"type","k":"real"|"int"|"cat","t":name} | {"o":"normdims"} … ]
+                  (Model/SpaceObject.lean: one Space object, "dims" = the dimensions at construction)
+                                           → states = one entry per step, {"err":kind} (and nothing after it) or
+                                             {"names":[name…],"ndims":n,"sizes":[n…],"bounds":[[lo,hi]…]}
 -/
 
 open Lean DH.Wire DH.Space
+
+def jTrName (j : Json) : Except String TrName := do
+  match ← j.getStr? with
+  | "identity" => return .identity
+  | "normalize" => return .normalize
+  | "label" => return .label
+  | "onehot" => return .onehot
+  | s => throw s!"bad transformer name {s}"
+
+def trNameStr : TrName → String
+  | .identity => "identity"
+  | .normalize => "normalize"
+  | .label => "label"
+  | .onehot => "onehot"
+
+def jSpaceOp (j : Json) : Except String SpaceOp := do
+  match ← (← field j "o").getStr? with
+  | "dim" => return .setDim (← (← field j "j").getNat?) (← jTrName (← field j "t"))
+  | "all" => return .setAll (← jTrName (← field j "t"))
+  | "each" => return .setEach (← jList jTrName (← field j "ts"))
+  | "type" =>
+    let k ← match ← (← field j "k").getStr? with
+      | "real" => pure DimKind.real
+      | "int" => pure DimKind.int
+      | "cat" => pure DimKind.cat
+      | s => throw s!"bad dimension class {s}"
+    return .setByType k (← jTrName (← field j "t"))
+  | "normdims" => return .normalizeDims
+  | s => throw s!"bad space op {s}"
+
+def ofLayout (l : Layout) : Json :=
+  Json.mkObj [("names", .arr (l.names.map (fun t => Json.str (trNameStr t))).toArray),
+    ("ndims", Json.num (JsonNumber.fromNat l.nDims)),
+    ("sizes", .arr (l.sizes.map (fun n => Json.num (JsonNumber.fromNat n))).toArray),
+    ("bounds", .arr (l.bounds.map (fun b => Json.arr #[ofRat b.1, ofRat b.2])).toArray)]
 
 def handle (j : Json) : Except String Json := do
   let op ← (← field j "op").getStr?
@@ -90,6 +131,12 @@ def handle (j : Json) : Except String Json := do
       ("shape", checkShape dims X.length Xt),
       ("bounds", checkBounds bounds Xt),
       ("roundtrip", checkRoundTrip dims XT Xr)]
+  | "history" =>
+    let ops ← jList jSpaceOp (← field j "ops")
+    let states := (layoutsAlong L dims ops).map (fun r => match r with
+      | .error e => ofErr e
+      | .ok l => ofLayout l)
+    return Json.mkObj [("ok", true), ("states", .arr states.toArray)]
   | "old_identity_typed" =>
     let col ← jList jVal (← field j "col")
     let res := match identityTypedInverseOld col with
